@@ -1,10 +1,11 @@
 use crate::engine::case::Prop;
 
+pub mod c04;
 pub mod c08;
 pub mod c13;
 
 pub fn all() -> Vec<&'static dyn Prop> {
-    vec![&c08::C08, &c13::C13]
+    vec![&c04::C04, &c08::C08, &c13::C13]
 }
 
 pub fn get(id: &str) -> Option<&'static dyn Prop> {
